@@ -132,6 +132,7 @@ func concStress(args []string) error {
 	calls := fs.Int("calls", 4, "calls per goroutine")
 	nnames := fs.Int("names", 2, "distinct algorithm names")
 	out := fs.String("out", "", "output (ndjson)")
+	profile := fs.String("profile", "random", "random | hot (one goroutine registers / removes ONE name in turn, all others look it up)")
 	fs.Parse(args)
 	f, err := os.Create(*out)
 	if err != nil {
@@ -151,7 +152,20 @@ func concStress(args []string) error {
 		plans := make([][]regOp, *procs)
 		for p := range plans {
 			for c := 0; c < *calls; c++ {
-				plans[p] = append(plans[p], randOp(r, names, 2))
+				switch {
+				case *profile != "hot":
+					plans[p] = append(plans[p], randOp(r, names, 2))
+				case p == 0 && c%2 == 0: // the writer: register instance 1, remove, register instance 2, remove ...
+					plans[p] = append(plans[p], regOp{Kind: "Registry", Svc: []any{names[0], 1 + (c/2)%2}})
+				case p == 0:
+					if r.Intn(4) == 0 {
+						plans[p] = append(plans[p], regOp{Kind: "Clear", Svc: []any{}})
+					} else {
+						plans[p] = append(plans[p], regOp{Kind: "Remove", Name: names[0], Svc: []any{}})
+					}
+				default:
+					plans[p] = append(plans[p], regOp{Kind: "Get", Name: names[0], Svc: []any{}})
+				}
 			}
 		}
 		logs := make([][]regEvent, *procs)
